@@ -247,6 +247,7 @@ func (s *Scanner) Init(src io.Reader) *Scanner {
 // case (one test to check for both ASCII and end-of-buffer, and one test
 // to check for newlines).
 func (s *Scanner) next() rune {
+	vScanStep()
 	ch, width := rune(s.srcBuf[s.srcPos]), 1
 
 	if ch >= utf8.RuneSelf {
